@@ -491,6 +491,7 @@ func sentinelScan(c *Ctx, pureKey string, fns map[*ssa.Function]bool) {
 		key = key[:i]
 	}
 	key += ".sentinels.distinct"
+	c.R.Rule(key, "every package-level error variable of the repository loaded by a function reachable from the API roots compares by identity: initialised with errors.New, fmt.Errorf without %w, or a value whose type declares no Is / As / Unwrap method (so the documented error kinds cannot be confused by errors.Is)")
 	errT := types.Universe.Lookup("error").Type().Underlying().(*types.Interface)
 	globals := map[*ssa.Global]bool{}
 	for fn := range fns {
